@@ -54,6 +54,10 @@
  * Active attempts to check for reader Q.S. before calling futex().
  */
 #define RCU_QS_ACTIVE_ATTEMPTS 100
+#if defined(URCU_VERIF) && defined(URCU_VERIF_RCU_QS_ACTIVE_ATTEMPTS)
+#undef RCU_QS_ACTIVE_ATTEMPTS
+#define RCU_QS_ACTIVE_ATTEMPTS URCU_VERIF_RCU_QS_ACTIVE_ATTEMPTS
+#endif
 
 /* If the headers do not support membarrier system call, fall back on RCU_MB */
 #ifdef __NR_membarrier
